@@ -31,7 +31,7 @@ FILE_PROPS = {
     "src/suggestion.rs": ["C02", "C07", "C16", "C19", "C15"],
     "src/utility.rs": ["C17", "C09", "C12", "C13", "C04", "C07", "C03", "C15"],
     "src/context.rs": ["C11", "C06", "C01", "C04", "C10"],
-    "src/config.rs": ["C11", "C16", "C10", "C04", "C19", "C15"],
+    "src/config.rs": ["C11", "C16", "C12", "C14", "C10", "C04", "C19", "C15", "C17"],
     "src/data.rs": ["C08", "C18", "C10", "C11", "C07"],
     "src/ffi.rs": ["C19", "C16", "C02"],
     "src/keycodes.rs": ["C04", "C03"],
@@ -112,7 +112,7 @@ def gen(outdir, limit, files, seed):
     rng = random.Random(seed); rng.shuffle(allc)
     # spread over files: at most limit/len(files)*2 per file
     per = {}; chosen = []
-    cap = max(4, 2 * limit // max(1, len(files)))
+    cap = int(os.environ.get("MUTATE_CAP", "0")) or max(4, 2 * limit // max(1, len(files)))
     for c in allc:
         if per.get(c[0], 0) >= cap: continue
         per[c[0]] = per.get(c[0], 0) + 1; chosen.append(c)
